@@ -2773,6 +2773,10 @@ def collapse_rests(rest_array):
                 (rest_array["onset_beat"] == rest["onset_beat"] + rest["duration_beat"])
                 & (rest_array["voice"] == rest["voice"])
             )[0]
+            # a rest of length zero ends where it starts: it must not be merged
+            # with itself (it would be kept AND reported as merged, and
+            # rec_collapse_rests would never terminate)
+            idxs = idxs[idxs != i]
             for idx in idxs:
                 rest_array[i]["duration_beat"] = (
                     rest["duration_beat"] + rest_array[idx]["duration_beat"]
